@@ -18,11 +18,13 @@ enum LK {
     Expr,
 }
 
-const LINES: [(&str, LK); 23] = [
+const LINES: [(&str, LK); 25] = [
     ("// name", LK::Comment("name")),
     ("//  padded \t", LK::Comment("padded")),
     ("//", LK::Comment("")),
     ("   // indented", LK::Comment("indented")),
+    ("\u{a0}\u{2003}// unicode indent", LK::Comment("unicode indent")),
+    ("//\u{3000}\u{85}unicode pad\u{2009}\u{b}", LK::Comment("unicode pad")),
     ("", LK::Blank),
     ("@k: i1;", LK::Meta),
     ("@k: \"s\";", LK::Meta),
@@ -179,8 +181,15 @@ fn variants(seq: &[usize]) -> Vec<(String, &'static str)> {
     ]
 }
 
+static QUICK: std::sync::atomic::AtomicBool = std::sync::atomic::AtomicBool::new(false);
+
 fn run_seq(g: &Grammar, seq: &[usize], acc: &mut Acc) {
+    // quick tier: the longest sequences only with LF and with CRLF + final terminator
+    let quick_long = seq.len() >= 4 && QUICK.load(std::sync::atomic::Ordering::Relaxed);
     for (text, v) in variants(seq) {
+        if quick_long && (v == "lf+final" || v == "crlf") {
+            continue;
+        }
         check_text(g, seq, &text, v, acc);
     }
 }
@@ -189,10 +198,11 @@ pub fn run(tier: Tier) -> i32 {
     let mut rep = Report::new("C14", tier);
     let g = Grammar::new();
     let max_len = tier.pick(4, 5);
+    QUICK.store(tier == Tier::Quick, std::sync::atomic::Ordering::Relaxed);
     let n = LINES.len();
     rep.bound("line_alphabet", n);
     rep.bound("max_lines", max_len);
-    rep.bound("variants", "LF / CRLF, with and without a final terminator");
+    rep.bound("variants", "LF / CRLF, with and without a final terminator (quick tier: 4-line sequences with LF and CRLF+final only)");
     let mut acc0 = Acc::new();
     run_seq(&g, &[], &mut acc0);
     let (acc, count) = (0..n)
@@ -251,13 +261,35 @@ pub fn run(tier: Tier) -> i32 {
             run_seq(&g, seq, &mut acc0);
         }
         acc0.count("long_texts", long.len() as u64);
+        // many metadata items with repeated keys in scrambled order: the last written value wins
+        for n in [8usize, 21, 33, 65, 130] {
+            let keys = n / 2 + 1;
+            let mut text = String::from("// many\n");
+            let mut want: BTreeMap<String, RV> = BTreeMap::new();
+            for i in 0..n {
+                let k = format!("k{:03}", (i * 37 + 11) % keys);
+                text.push_str(&format!("@{k}: i{i};\n"));
+                want.insert(k, RV::Int(i as i128));
+            }
+            text.push_str("i1 + i2\n");
+            acc0.count("executions", 1);
+            match impl_parse_rule(&text) {
+                ImplParse::Ok(r) if r.metadata == want && r.name == "many" => acc0.outcome("many-metadata:ok"),
+                other => acc0.violation(Violation {
+                    sig: format!("many-metadata/{n}"),
+                    what: format!("{n} metadata items with repeated keys (last occurrence wins): got {}", short(&other)),
+                    case: json!({"kind": "many-metadata", "n": n}),
+                    size: n,
+                }),
+            }
+        }
     }
     rep.absorb(acc0);
     rep.absorb(acc);
     rep.states = count + 1;
     rep.transitions = (count + 1) * 4;
     rep.traces = rep.acc.get("executions");
-    rep.rule = "every sequence of lines up to the bound over a 23-line alphabet (comment lines incl. padded/empty/indented, blank line, 12 metadata lines incl. duplicates, case variants, name/description overrides and non-constant values, expression lines incl. a split expression and a trailing comment), joined with LF and CRLF, with and without a final terminator; each parsed by Rule::parse and compared with a reference rule-text model (reference grammar for accept/reject, metadata and expression; comment lines from the components; plus the differential 'expression = parse of the text without metadata lines')".into();
+    rep.rule = "every sequence of lines up to the bound over a 25-line alphabet (comment lines incl. padded/empty/indented, blank line, 12 metadata lines incl. duplicates, case variants, name/description overrides and non-constant values, expression lines incl. a split expression and a trailing comment), joined with LF and CRLF, with and without a final terminator; each parsed by Rule::parse and compared with a reference rule-text model (reference grammar for accept/reject, metadata and expression; comment lines from the components; plus the differential 'expression = parse of the text without metadata lines')".into();
     rep.assume("bare CR line ends and // at the start of a line inside a multi-line string literal are outside the alphabet (DESIGN §5 U8); an empty name from a bare // line counts as a name (U10)");
     rep.finish()
 }
